@@ -48,3 +48,36 @@ Definition py_int_hash (v : Z) : Z :=
   if 0 <=? v then v mod m
   else let h := - ((- v) mod m) in if h =? -1 then -2 else h.
 Definition reqid_hash (r : reqid) : Z := py_int_hash (reqid_as_u32 r).
+
+(* ---- operation histories: the three attributes of a RequestId and the attributes of the
+   PacketId / PacketSeqCtrl objects it holds are public and assigned without any check ---- *)
+Inductive rq_op :=
+| RqVer (v : Z) | RqPtype (v : Z) | RqShf (v : Z) | RqApid (v : Z) | RqFlags (v : Z) | RqCount (v : Z)
+| RqPack | RqObserve | RqEqFresh.
+
+Definition reqid_apply (r : reqid) (o : rq_op) : reqid :=
+  let p := rq_pid r in let s := rq_psc r in
+  match o with
+  | RqVer v => {| rq_pid := p; rq_psc := s; rq_ver := v |}
+  | RqPtype v => {| rq_pid := {| pid_ptype := v; pid_shf := pid_shf p; pid_apid := pid_apid p |};
+                    rq_psc := s; rq_ver := rq_ver r |}
+  | RqShf v => {| rq_pid := {| pid_ptype := pid_ptype p; pid_shf := v; pid_apid := pid_apid p |};
+                  rq_psc := s; rq_ver := rq_ver r |}
+  | RqApid v => {| rq_pid := {| pid_ptype := pid_ptype p; pid_shf := pid_shf p; pid_apid := v |};
+                   rq_psc := s; rq_ver := rq_ver r |}
+  | RqFlags v => {| rq_pid := p; rq_psc := {| psc_flags := v; psc_count := psc_count s |};
+                    rq_ver := rq_ver r |}
+  | RqCount v => {| rq_pid := p; rq_psc := {| psc_flags := psc_flags s; psc_count := v |};
+                    rq_ver := rq_ver r |}
+  | RqPack | RqObserve | RqEqFresh => r
+  end.
+
+(* fresh = RequestId(PacketId(<current>), PacketSeqCtrl(<current>), <current version>);
+   r == fresh, fresh == r, hash(r) == hash(fresh), r == RequestId.unpack(r.pack()) *)
+Definition reqid_eq_fresh (r : reqid) : res (bool * bool * bool * bool) :=
+  do p <- pid_new (pid_ptype (rq_pid r)) (pid_shf (rq_pid r)) (pid_apid (rq_pid r));
+  do s <- psc_new (psc_flags (rq_psc r)) (psc_count (rq_psc r));
+  let f := {| rq_pid := p; rq_psc := s; rq_ver := rq_ver r |} in
+  do b <- reqid_pack r;
+  do u <- reqid_unpack b;
+  Ok (reqid_eqb r f, reqid_eqb f r, reqid_hash r =? reqid_hash f, reqid_eqb r u).
